@@ -12,8 +12,6 @@ import (
 	"os"
 	"strconv"
 	"strings"
-	"unicode"
-	"unicode/utf8"
 
 	"github.com/fatih/structtag"
 )
@@ -133,12 +131,8 @@ func (c *config) rewrite(node ast.Node) (ast.Node, error) {
 
 		// Now we make updates
 		for _, f := range x.Fields.List {
-			// Embedded fields have no names
-			if c.excludePrivate && len(f.Names) > 0 {
-				r, _ := utf8.DecodeRuneInString(f.Names[0].Name)
-				if unicode.IsLower(r) {
-					continue
-				}
+			if c.excludePrivate && !ast.IsExported(fieldName(f)) {
+				continue
 			}
 			if f.Tag == nil {
 				f.Tag = &ast.BasicLit{}
@@ -185,6 +179,33 @@ func (c *config) rewrite(node ast.Node) (ast.Node, error) {
 	}
 
 	return node, nil
+}
+
+// fieldName returns the name of a field. An embedded field has no name of its
+// own: it is named after its type
+func fieldName(f *ast.Field) string {
+	if len(f.Names) > 0 {
+		return f.Names[0].Name
+	}
+	typ := f.Type
+	for {
+		switch t := typ.(type) {
+		case *ast.StarExpr:
+			typ = t.X
+		case *ast.ParenExpr:
+			typ = t.X
+		case *ast.IndexExpr:
+			typ = t.X
+		case *ast.IndexListExpr:
+			typ = t.X
+		case *ast.SelectorExpr:
+			return t.Sel.Name
+		case *ast.Ident:
+			return t.Name
+		default:
+			return ""
+		}
+	}
 }
 
 func (c *config) isExcluded(tags *structtag.Tags) bool {
